@@ -397,6 +397,7 @@ func (h *Host) register() {
 			}
 		}
 		must(h.dr.ConvertAndAddFunction("pn", func(x float64) float64 { h.call("fn", "pn", x); return probePN(x) }))
+		must(h.dr.ConvertAndAddFunction("pnn", func(x namedFloat) namedFloat { h.call("fn", "pnn", float64(x)); return namedFloat(probePN(float64(x))) }))
 		must(h.dr.ConvertAndAddFunction("pn2", func(a, b float64) float64 { h.call("fn", "pn2", a, b); return probePN2(a, b) }))
 		must(h.dr.ConvertAndAddFunction("pb", func(b bool) bool { h.call("fn", "pb", b); return !b }))
 		h.dr.AddFunction("ps", func(args []*variable.Value) (*variable.Value, error) {
@@ -421,8 +422,22 @@ var (
 	tROChan = reflect.TypeOf((<-chan error)(nil))
 )
 
+// named types of the supported kinds: a host may declare its functions and handlers with them
+type namedInt int
+type namedFloat float64
+type namedString string
+type namedBool bool
+
 func goType(k string) reflect.Type {
 	switch k {
+	case "MyInt":
+		return reflect.TypeOf(namedInt(0))
+	case "MyFloat":
+		return reflect.TypeOf(namedFloat(0))
+	case "MyString":
+		return reflect.TypeOf(namedString(""))
+	case "MyBool":
+		return reflect.TypeOf(namedBool(false))
 	case "int":
 		return reflect.TypeOf(int(0))
 	case "int8":
@@ -460,6 +475,17 @@ func reflCanon(v reflect.Value) string {
 // properties (non-integral number into an integer kind, out of range).
 func expectedArgCanon(k string, v Val) (string, bool) {
 	switch k {
+	case "MyString":
+		return "string:" + fmt.Sprintf("%q", v.S), v.K == 's'
+	case "MyBool":
+		return fmt.Sprintf("bool:%v", v.B), v.K == 'b'
+	case "MyFloat":
+		return "float64:" + numV(v.N).canon(), v.K == 'n'
+	case "MyInt":
+		if v.K != 'n' || v.N != math.Trunc(v.N) || math.Abs(v.N) > 100 {
+			return "", false
+		}
+		return fmt.Sprintf("int:%d", int64(v.N)), true
 	case "string":
 		return "string:" + fmt.Sprintf("%q", v.S), v.K == 's'
 	case "bool":
